@@ -73,3 +73,36 @@ func BuildClean(keys []string, opts ...Opt) *T {
 	sort.Strings(ks)
 	return &T{inner: &msg{Bytes: []byte(ks[0])}}
 }
+
+// Enc mirrors encode.Encoder; Ident is an identity encoder like encode.Bytes.
+type Enc interface {
+	Encode(d interface{}) []byte
+}
+
+type Ident struct{}
+
+func (Ident) Encode(d interface{}) []byte { return d.([]byte) }
+
+// BuildKeepingValues keeps the encoded bytes of a lone value without copying
+// them: with an identity encoder that is the caller's own slice.
+func BuildKeepingValues(e Enc, vals interface{}) *T {
+	vs := vals.([][]byte)
+	var elts [][]byte
+	for _, v := range vs {
+		elts = append(elts, e.Encode(v))
+	}
+	if len(elts) == 1 {
+		return &T{inner: &msg{Bytes: elts[0]}}
+	}
+	return &T{inner: &msg{}}
+}
+
+// BuildCopyingValues is the negative control: encoded bytes are packed into a fresh buffer.
+func BuildCopyingValues(e Enc, vals interface{}) *T {
+	vs := vals.([][]byte)
+	var buf []byte
+	for _, v := range vs {
+		buf = append(buf, e.Encode(v)...)
+	}
+	return &T{inner: &msg{Bytes: buf}}
+}
